@@ -50,6 +50,11 @@ def fmt_t(x):
     return str(x)
 
 
+import rpyc.core.protocol as _protocol_mod
+import rpyc.core.async_ as _async_mod
+WIDE_FILES = {_protocol_mod.__file__, _async_mod.__file__}
+
+
 class Abort(BaseException):
     """raised inside a parked thread when a run is torn down"""
 
@@ -299,6 +304,10 @@ class Sched:
 
     def _global_trace(self, frame, event, arg):
         if frame.f_code in self.targets:
+            return self._local_trace
+        if self.park_all and frame.f_code.co_filename in WIDE_FILES:
+            # oracle search: every line of every function of protocol.py / async_.py is a scheduling point, so that
+            # code the model knows nothing about (a new helper on a timeout path, say) is interleaved too
             return self._local_trace
         return None
 
@@ -775,6 +784,9 @@ class Run:
         self.current_poll = {}
         self.handler_of = {}        # seq -> handler id of the request (answers to REPR/STR must be strings)
         self.nested_requests = []   # (tid, seq, handler): requests a thread sent while dispatching a received frame
+        self.ready_polls = []       # (tid, seq, number of `ready` reads that returned False, trace index when it was True)
+        self.unrelated_sent = 0
+        self.table_replaced = None  # trace index at which `conn._request_callbacks` was found rebound to another object
         self.callback_log = []      # (tid, id(AsyncResult)) per callback invocation
         self.callback_expected = []
         self.n_logical = 0
@@ -872,11 +884,14 @@ class Run:
                 log.removeHandler(h)
             log.addHandler(logging.StreamHandler(io.StringIO()))
             config["logger"] = log
+        if "sync" in self.case:
+            config["sync_request_timeout"] = self.case["sync"]
         conn = Connection(rpyc.VoidService(), chan, config=config)
         conn._recvlock = SLock(s)
         conn._recv_event = SCond(s)
         conn._seqcounter = LoggingCounter(s, self, conn._seqcounter)
         conn._request_callbacks = LoggingDict(s, self)
+        self.cb_table = conn._request_callbacks
         real_dispatch = conn._dispatch
         run = self
 
@@ -975,14 +990,29 @@ class Run:
         def fn():
             out = self.results.setdefault(tid, [])
             for tmo in calls:
+                ready_mode = isinstance(tmo, (tuple, list))
+                if ready_mode:
+                    tmo = tmo[1]                    # ("ready", tmo): wait the non-blocking way, `while not res.ready`
+                if "sync" in self.case:
+                    tmo = self.case["sync"]         # conn.sync_request: the connection-wide sync_request_timeout
                 self.current_tmo[tid] = tmo
                 n_before = len([1 for (t, _q) in self.issued if t == tid])
                 try:
-                    res = conn.async_request(consts.HANDLE_PING, "x", timeout=tmo)
-                    if self.case.get("callbacks"):
+                    if "sync" in self.case:
+                        v = conn.sync_request(consts.HANDLE_PING, "x")
+                        res = None
+                    else:
+                        res = conn.async_request(consts.HANDLE_PING, "x", timeout=tmo)
+                    if res is not None and self.case.get("callbacks"):
                         res.add_callback(lambda r, tid=tid: self.callback_log.append((tid, id(r))))
                         self.callback_expected.append((tid, id(res), res))
-                    v = res.value
+                    if res is not None and ready_mode:
+                        spins = 0
+                        while not res.ready and spins < 25:
+                            spins += 1
+                        self.ready_polls.append((tid, self.current_seq(tid), spins, len(s.trace)))
+                    if res is not None:
+                        v = res.value
                     if BaseNetref in type(v).__mro__:
                         self.keepalive.append(v)
                         text = "value:0:%d" % self.payload_of(v)
@@ -1064,6 +1094,15 @@ class Run:
         if seq in self.case.get("dup", ()) and n == 0:
             self.outstanding.append(seq)         # a second, identical-seq reply will follow (outside the model)
 
+    def peer_unrelated(self):
+        """unrelated inbound traffic: a reply to a request this side never made (dropped by _seq_request_callback)"""
+        fid = len(self.frames_sent)
+        seq = 9000 + self.unrelated_sent
+        self.unrelated_sent += 1
+        self.frames_sent.append((fid, seq, False, 0))
+        self.chan.frames.append((fid, brine.dump((consts.MSG_REPLY, seq, (consts.LABEL_VALUE, 0)))))
+        self.sched.log_env("peer:%d:0:0" % seq, "unrelated", (seq, fid))
+
     def peer_eof(self):
         self.chan.eof = True
         self.eof_at = len(self.sched.trace)
@@ -1094,6 +1133,8 @@ class Run:
                 clients_done = all(s.threads[t].state == "done" for t in range(1, n + 1))
                 if clients_done and bg_tid is not None and self.bgt._active:
                     self.bgt._active = False
+                if self.table_replaced is None and self.conn._request_callbacks is not self.cb_table:
+                    self.table_replaced = len(s.trace)      # the callbacks table object was rebound during the run
                 if all(th.state == "done" for th in s.threads.values()):
                     self.outcome = "finished"
                     break
@@ -1105,6 +1146,8 @@ class Run:
                 peer = [] if (clients_done or self.chan.eof) else ["P%d" % q for q in sorted(set(self.outstanding) - muted)]
                 if self.case.get("eof") and not self.chan.eof and not clients_done:
                     peer = peer + ["E"]
+                if self.unrelated_sent < self.case.get("unrelated", 0) and not self.chan.eof and not clients_done:
+                    peer = peer + ["U"]
                 nd = s.next_deadline()
                 opts = en + peer
                 if not opts:
@@ -1131,6 +1174,8 @@ class Run:
                     s.advance(nd)
                 elif choice == "E":
                     self.peer_eof()
+                elif choice == "U":
+                    self.peer_unrelated()
                 elif choice[0] == "P":
                     self.peer_answer(int(choice[1:]))
                 else:
@@ -1278,7 +1323,7 @@ def dfs(case, bound, env, max_runs=None, deadline=None, visit=None, park_all=Fal
 
 class DirectedChooser:
     """script items: ("run", tid, label) run thread tid until it has logged `label` (label may be "a|b");
-    ("block", tid) run tid until it is not enabled; ("peer", seq); ("eof",) the peer closes the stream; ("tick",) advance to the next deadline
+    ("block", tid) run tid until it is not enabled; ("step", tid, n) grant tid n steps; ("peer", seq); ("eof",) the peer closes the stream; ("tick",) advance to the next deadline
     (needs case["early_tick"]).  After the script: the default policy.  `failed` is set when an item could not
     be followed (the schedule does not exist on this code)."""
     def __init__(self, script):
@@ -1287,6 +1332,7 @@ class DirectedChooser:
         self.mark = 0
         self.failed = None
         self.done_at = None
+        self.count = 0
 
     def __call__(self, run, opts, current):
         ev = run.sched.events
@@ -1316,6 +1362,19 @@ class DirectedChooser:
                 self.failed = "peer cannot answer %d" % item[1]
                 self.k = len(self.script)
                 break
+            if item[0] == "step":
+                _x, tid, n = item
+                if self.count < n and "T%d" % tid in opts:
+                    self.count += 1
+                    return "T%d" % tid
+                self.count = 0
+                self._next(ev)
+                continue
+            if item[0] == "unrelated":
+                self._next(ev)
+                if "U" in opts:
+                    return "U"
+                continue
             if item[0] == "eof":
                 self._next(ev)
                 if "E" in opts:
@@ -1354,6 +1413,8 @@ def calls_of(run):
         per_tid[tid] = k + 1
         calls = run.case["clients"][tid - 1] if 1 <= tid <= len(run.case["clients"]) else []
         tmo = calls[k] if k < len(calls) else run.current_tmo.get(tid)
+        if isinstance(tmo, (tuple, list)):
+            tmo = tmo[1]
         res = run.results.get(tid, [])
         r = res[k] if k < len(res) else None
         t_issue = next((e[4] for e in ev if e[2] == "call" and e[3] == (tid, seq)), None)
@@ -1437,6 +1498,57 @@ def stalls_of(run):
     return out
 
 
+SIG_DRAIN = "C14:ready-poll-keeps-serving-after-own-reply"
+
+
+def ready_drain(run):
+    """C14 through the non-blocking path (`while not res.ready`): once the polling thread has itself dispatched the
+    reply to its request, `ready` returns True in that same poll round -- the thread receives no further frame before
+    it gets control back.  Oracle-only (these runs are outside the model: a caller that polls)."""
+    ev = run.sched.events
+    out = []
+    for (tid, seq, spins, end) in run.ready_polls:
+        d5 = next((e for e in ev if e[2] == "d5" and str(e[3]) == str(seq) and e[1] == tid), None)
+        if d5 is None:
+            continue
+        extra = [e for e in ev if e[1] == tid and e[2] == "p0" and d5[0] < e[0] < end and e[3] not in ("none", "eof")]
+        if extra:
+            out.append(dict(tid=tid, seq=seq, receiver=tid, t_dispatch=d5[4], t_return=None, tmo=None, blocked_in="poll_all",
+                            signature=SIG_DRAIN, at=d5[0], extra_frames=[e[3] for e in extra],
+                            shape="after dispatching the reply to its own request inside AsyncResult.ready -> poll_all, the thread "
+                                  "went on receiving %d further frame(s) %r before `ready` returned" % (len(extra), [e[3] for e in extra])))
+    return out
+
+
+def _dispatched_before(run, seq, ttl):
+    """was a reply frame for `seq` dispatched -- from the entry of _dispatch to the dispatcher's next loop test, all of
+    it -- strictly before virtual time ttl, without the request's result being published?"""
+    if ttl is None or ttl == "inf":
+        return False
+    ev = run.sched.events
+    fids = [fid for (fid, q, _e, _v) in run.frames_sent if q == seq]
+    if any(e[2] == "d5" and str(e[3]) == str(seq) for e in ev):
+        return False
+    for fid in fids:
+        rx = next((e for e in ev if e[2] == "p0" and e[3] == fid), None)
+        if rx is None:
+            continue
+        t = rx[1]
+        d0 = next((e for e in ev if e[0] > rx[0] and e[1] == t and e[2] == "d0" and e[3] == "data"), None)
+        if d0 is None:
+            continue
+        end = d0[4]
+        for e in ev:
+            if e[0] > d0[0] and e[1] == t:
+                if e[2] in ("w0", "s0", "q1", "bS", "b0", "w9", "poll", "call", "stop"):
+                    end = max(end, e[4])
+                    break
+                end = max(end, e[4])
+        if end < float(ttl):
+            return True
+    return False
+
+
 def c13_violations(run):
     """C13's direct oracle on one run of the real code: list of (signature, text)"""
     out = []
@@ -1468,7 +1580,7 @@ def c13_violations(run):
         if e[2] == "d5":
             compl[str(e[3])] = compl.get(str(e[3]), 0) + 1
     for q, n in sorted(compl.items()):
-        if n > 1:
+        if n > 1 and q != "-1":     # "-1": a result the harness never saw registered (its table stand-in was bypassed)
             out.append(("C13:request-completed-twice", "request %s: _is_ready stored %d times" % (q, n)))
     for c in calls_of(run):
         res = c["result"]
@@ -1486,6 +1598,9 @@ def c13_violations(run):
                 out.append(("C13:spurious-timeout", "thread %d request %d raised a timeout without having one" % (c["tid"], c["seq"])))
             elif ttl is not None and ttl != "inf" and c["t_return"] < float(ttl):
                 out.append(("C13:early-timeout", "thread %d request %d timed out at %s before its deadline %s" % (c["tid"], c["seq"], c["t_return"], ttl)))
+            elif not run.chan.closed and _dispatched_before(run, c["seq"], ttl):
+                out.append(("C13:reply-dropped", "thread %d request %d: the peer's reply was received and dispatched before the "
+                            "request's deadline %s, yet the request never completed (timeout)" % (c["tid"], c["seq"], ttl)))
             else:
                 # a publication racing with the deadline may legitimately come after the caller's final test;
                 # one that precedes the final readiness test must have been seen
